@@ -7,11 +7,17 @@ REGISTRY = Comp('registry', n_quick=640, n_thorough=12000, oracle=registry.regis
 TXVIS_C17 = Comp('txvis', n_quick=16, n_thorough=200, oracle=txvis.txvis_oracle, nontrivial=txvis.txvis_nontrivial, stats=txvis.txvis_stats,
                  differential=False, chunk_min=2, timeout=900, shrink=False)
 
+from oracledefs import service as _svc
+SERVICE_C17 = Comp('service', n_quick=96, n_thorough=1500, oracle=_svc.service_lock_oracle, nontrivial=_svc.service_lock_nontrivial,
+                   stats=_svc.service_stats, chunk_min=10, timeout=900, shrink=False)
+
 reg(Prop('C17', 'Kevo.Props.C17',
          facts=['facts:tx.*'],
-         components=[REGISTRY, TXVIS_C17],
+         components=[REGISTRY, TXVIS_C17, SERVICE_C17],
          fact_tags=['tx:', 'tx.', 'transaction.', 'service.'],
-         rule='component registry (implementation only): the real RegistryImpl + transaction.Manager (TTLs 25 ms / 60 s injected through '
+         rule='component service (the request sequences of C19, here judged only for locks): every request that the lock model says cannot wait returns '
+              'within 12 s - in particular the write after a streaming scan whose client went away after the first pair (scancancel). '
+              'component registry (implementation only): the real RegistryImpl + transaction.Manager (TTLs 25 ms / 60 s injected through '
               'NewManagerWithTTL / NewRegistryWithTTL) + the real KevoServiceServer handlers (BeginTransaction, TxGet, TxPut, TxDelete, '
               'CommitTransaction, RollbackTransaction, CleanupConnection) on a real engine; scripted clients, 2-5 blocks per case: '
               'begin-timeout under contention (lock held by a foreign transaction or by a registered one; 40 ms deadline; a pending '
